@@ -12,7 +12,10 @@
 //!              | {"request": "inlayHint", "path": relpath, "range": [l0, c0, l1, c1]}
 //!              | {"wait_idle": true} | {"sleep_ms": n}],
 //!    "watchdog_ms": 10000, "quiet_ms": 300, "hard_ms": 120000,
-//!    "holds": [{"point": p, "until": q, "max_ms": 400}]   (only with hook H2 compiled in)}
+//!    "holds": [{"point": p, "until": q, "max_ms": 400,    (only with hook H2 compiled in) a thread reaching hook
+//!               "arm_after_step": i, "count": n}]}         point p is parked until point q is reached by anybody
+//!                                                          or max_ms elapse; armed once step i has been sent
+//!                                                          (default: from the start); at most n times (default: always)
 //!   kinds: definition references hover completion documentSymbol foldingRange documentLink inlayHint
 //! stdout: {"hooks": bool, "log": [...], "timed_out": bool, "unanswered": [ids], "server_exited": bool}
 //!   log entries: {"ev":"sent","step":i,...} {"ev":"response","id":..,"kind":..,"elapsed_ms":..,"result"|"error":..}
@@ -63,6 +66,9 @@ mod hooks {
         pub point: String,
         pub until: String,
         pub max_ms: u64,
+        pub arm_after_step: i64,
+        pub count: i64,
+        pub used: std::sync::atomic::AtomicI64,
     }
 
     #[derive(Default)]
@@ -79,6 +85,7 @@ mod hooks {
         pub cv: Condvar,
         pub holds: Vec<Hold>,
         pub shared: Arc<Shared>,
+        pub step: std::sync::atomic::AtomicI64,
     }
 
     impl Hooks {
@@ -101,8 +108,12 @@ mod hooks {
             }
             self.shared.push(json!({"ev": "sync", "thread": tid, "point": point}));
             self.cv.notify_all();
+            use std::sync::atomic::Ordering::SeqCst;
             for h in &self.holds {
-                if h.point == point {
+                if h.point == point
+                    && self.step.load(SeqCst) >= h.arm_after_step
+                    && (h.count < 0 || h.used.fetch_add(1, SeqCst) < h.count)
+                {
                     let base = st.counts.get(h.until.as_str()).copied().unwrap_or(0);
                     let deadline = Instant::now() + Duration::from_millis(h.max_ms);
                     self.shared.push(json!({"ev": "held", "thread": tid, "point": point, "until": h.until}));
@@ -138,10 +149,14 @@ mod hooks {
                     point: h["point"].as_str().unwrap_or("").to_string(),
                     until: h["until"].as_str().unwrap_or("").to_string(),
                     max_ms: h["max_ms"].as_u64().unwrap_or(400),
+                    arm_after_step: h["arm_after_step"].as_i64().unwrap_or(-1),
+                    count: h["count"].as_i64().unwrap_or(-1),
+                    used: std::sync::atomic::AtomicI64::new(0),
                 });
             }
         }
-        let hooks = Arc::new(Hooks { st: Mutex::new(HookState::default()), cv: Condvar::new(), holds, shared });
+        let hooks = Arc::new(Hooks { st: Mutex::new(HookState::default()), cv: Condvar::new(), holds, shared,
+                                     step: std::sync::atomic::AtomicI64::new(-1) });
         let h2 = Arc::clone(&hooks);
         lsp::server::verif::set_callback(Box::new(move |p| h2.on_point(p)));
         hooks
@@ -518,6 +533,8 @@ async fn session(shared: Arc<Shared>, script: Value) -> Value {
     for (i, st) in steps.iter().enumerate() {
         let i = i as i64;
         let mut is_io = true;
+        #[cfg(tablegen_lsp_verif)]
+        d.hooks.step.store(i, std::sync::atomic::Ordering::SeqCst);
         if let Some(p) = st.get("open").and_then(|p| p.as_str()) {
             let uri = d.uri(p);
             doc_versions.insert(p.to_string(), 1);
